@@ -79,6 +79,17 @@ def gen_case(rng, quick):
             Y = Y + np.array([[3.0 * om * _n(rng) for _ in range(t)]])
     scale = rng.choice([1.0, 1.0, 1e-3, 1e3])
     Y = Y * scale
+    # aliasing presentation: X and y as same-shaped float64 views of ONE buffer (reversed / overlapping windows /
+    # interleaved columns / the very same array); the values are those of an independent-copies twin (the model)
+    alias, alias_k = None, None
+    if p == t and p >= 2 and xkind == "float64" and rng.random() < 0.5:
+        alias = rng.choice(HST.ALIASES)
+        X, Y, alias_k = HST.alias_values(rng, X, Y, alias)
+        if alias in ("reversed", "same"):
+            fam, scale = "rotation", 1.0
+            Q = np.eye(p)[:, ::-1] if alias == "reversed" else np.eye(p)
+        elif alias == "windows" and fam in ("rotation", "rotation_offset", "rotation_noise"):
+            fam = "noise"
     if fam in ("rotation_offset", "shifted") and projector:
         est_pool = ["default", "lr", "ridge_tiny", "ridge_small", "lr_nointercept"]   # mostly estimators WITH intercept
     else:
@@ -90,7 +101,7 @@ def gen_case(rng, quick):
         sv = np.linalg.svd(Xc, compute_uv=False)
         if n <= p + 1 or sv[-1] <= 1e-3 * sv[0]:
             est_name = "ridge_small"
-    case = dict(family=fam, scale=scale, xkind=xkind, flag=flag, X=X.tolist(), Y=Y.tolist(), Q=Q.tolist(), projector=projector,
+    case = dict(family=fam, scale=scale, xkind=xkind, flag=flag, alias=alias, alias_k=alias_k, X=X.tolist(), Y=Y.tolist(), Q=Q.tolist(), projector=projector,
                 y1d=(t == 1 and projector and rng.random() < 0.5),   # padded mode needs 2-D y (y.shape[1])
                 estimator=est_name,
                 Xnew=_randn(rng, 3, p).tolist(),
@@ -112,6 +123,8 @@ def run_impl(case, present=True):
     X = HST.present(case["X"], xkind)
     Y = np.array(case["Y"], dtype=float)
     y = Y[:, 0] if case["y1d"] else Y
+    if present and case.get("alias"):
+        X, y = HST.present_pair(case["X"], case["Y"], case["alias"], case.get("alias_k"))
     try:
         m = OrthogonalRegression(use_orthogonal_projector=HST.present_flag(case["projector"],
                                                                              case.get("flag") if present else "bool"),
@@ -267,6 +280,8 @@ def oracle(case, rec, info=None):
         if np.max(np.abs(np.pad(Xn, [(0, 0), (0, q - p)]) @ coef.T - pred)) > 1e-9 * T * (1 + np.max(np.abs(pred))):
             return "predict differs from pad(Xnew) @ coef_.T"
         return None
+    if list(coef.shape) != [t, p]:
+        return "projector mode: coef_ has shape %s, expected (n_targets, n_features) = (%d, %d)" % (tuple(coef.shape), t, p)
     W = coef.T.reshape(p, t)
     if np.max(np.abs(W @ W.T @ W - W)) > 1e-9 * T * (1 + np.max(np.abs(W))):
         return "coef_ is not a partial isometry: max|W W^T W - W| = %.3g" % float(np.max(np.abs(W @ W.T @ W - W)))
@@ -361,7 +376,7 @@ def run(ctx):
     stats = dict(families={}, modes={}, relation={}, estimators={}, y1d=0, errors=0, wide=0,
                  exact_rotation=0, skipped=dict(coef_full=0, coef_block=0, proj_coef=0, proj_range=0),
                  compared=dict(coef_full=0, coef_block=0, proj_coef=0, proj_range=0), competitors=0,
-                 normal_equations_checked=0, float32_compared=0, float32_skipped=0, x_presentation={}, flag_presentation={},
+                 normal_equations_checked=0, float32_compared=0, float32_skipped=0, x_presentation={}, flag_presentation={}, aliasing={},
                  hint_residual_max=0.0, rank_deficient_cross=0,
                  history=dict(histories=0, ops={}, outcomes={}, refits=0, refit_mode_changed=0,
                               refit_estimator_changed=0, refit_other_shape=0, refit_same_shape_rectangular=0,
@@ -376,7 +391,8 @@ def run(ctx):
                      ("relation", "p<t" if p < t else "p=t" if p == t else "p>t"), ("estimators", c["estimator"])):
             stats[k][v] = stats[k].get(v, 0) + 1
         stats["y1d"] += c["y1d"]
-        for k, v in (("x_presentation", c.get("xkind", "float64")), ("flag_presentation", c.get("flag", "bool"))):
+        for k, v in (("x_presentation", c.get("xkind", "float64")), ("flag_presentation", c.get("flag", "bool")),
+                     ("aliasing", c.get("alias") or "independent")):
             stats[k][v] = stats[k].get(v, 0) + 1
         stats["errors"] += "error" in r
         stats["wide"] += info["n"] <= p
@@ -414,7 +430,16 @@ def run(ctx):
             if a["op"] == "fit" and o["res"] == "ok" and h["data"][a["d"]]["bad"] is None:
                 c = HST.step_case(h, k, cl)
                 r = o["fitrec"]
-                info = prepare(c, r)
+                if c["y1d"] and not c["projector"]:
+                    # accepted although the mode in force (public attribute) is padded and y is 1-D: the machine
+                    # (IndexError) disagrees below; there is no float-model case for it
+                    hist_bad.setdefault(hi, []).append("call %d: fit of a 1-D y accepted in padded mode" % k)
+                    continue
+                try:
+                    info = prepare(c, r)
+                except Exception as e:  # noqa
+                    hist_bad.setdefault(hi, []).append("call %d: hints for the fit could not be prepared (%s)" % (k, type(e).__name__))
+                    continue
                 origin[len(cases)] = (hi, k)
                 cases.append(c), recs.append(r), infos.append(info)
                 account(c, info, r)
